@@ -71,6 +71,14 @@ class E:
     def __pos__(s):
         return s
 
+    # strict comparisons never build LP rows: code that writes `a > b` on two supplies is BRANCHING on supply values.  The stand-in follows a decision tape
+    # (True first), logs every decision with its z3 condition, and the caller re-runs the builder with the alternative tapes (lpsym.model.build_all).
+    def __gt__(s, o):
+        return Cond(s.z > E.lift(o).z)
+
+    def __lt__(s, o):
+        return Cond(s.z < E.lift(o).z)
+
     def __le__(s, o):
         return C(s.z - E.lift(o).z, "le")
 
@@ -131,6 +139,29 @@ class Var(E):
     @property
     def varValue(s):
         return REG.value_hook(s)
+
+
+BRANCH = dict(tape=[], pos=0, log=[])
+
+
+class Cond:
+    """a strict comparison of two supply expressions used as a Python truth value"""
+    __slots__ = ("z",)
+
+    def __init__(self, z):
+        self.z = z
+
+    def __bool__(self):
+        zs = z3.simplify(self.z)
+        if z3.is_true(zs):
+            return True
+        if z3.is_false(zs):
+            return False
+        i = BRANCH["pos"]
+        d = BRANCH["tape"][i] if i < len(BRANCH["tape"]) else True
+        BRANCH["pos"] = i + 1
+        BRANCH["log"].append((self.z, d))
+        return d
 
 
 class Registry:
@@ -220,7 +251,8 @@ def install(om):
     return undo
 
 
-def reset():
+def reset(tape=()):
+    BRANCH["tape"], BRANCH["pos"], BRANCH["log"] = list(tape), 0, []
     REG.vars = []
     REG.snapshots = []
     REG.values = {}
